@@ -25,8 +25,9 @@ class Lemma:
     sequence variable).  `uses` names other (already proved) lemmas available in the proof.
     `lean` names a theorem of /verif/lemmas/*.lean that proves the same statement (checked by `lean`)."""
 
-    def __init__(self, name, vars, body, patterns=None, induct=None, uses=(), auto=False, lean=None, depth=2,
-                 cases=None, inst=()):
+    def __init__(self, name, vars, body, patterns=None, induct=None, uses=(), auto=False, lean=None, depth=None,
+                 cases=None, inst=(), use_inst=()):
+        self.use_inst = list(use_inst)  # [(lemma name, [terms for its vars])]: ground instances of used lemmas
         self.inst = list(inst)   # explicit instances of the induction hypothesis: lists of terms for `vars`
         self.name, self.vars, self.body, self.patterns = name, list(vars), body, patterns
         self.induct, self.uses, self.auto, self.lean, self.depth = induct, list(uses), auto, lean, depth
@@ -61,6 +62,10 @@ class Lemma:
             for terms in self.inst:
                 sub2 = list(zip(primed, terms))
                 hyps.append(z3.substitute(z3.Implies(guard, bodyp), *sub2))
+        for (ln, terms) in self.use_inst:
+            assert ln in self.uses, "use_inst of a lemma that is not in uses"
+            L = LEMMAS[ln]
+            hyps.append(z3.substitute(L.body, *list(zip(L.vars, terms))))
         if self.cases:
             return [("%s/case%d" % (self.name, i), hyps + [c], self.body) for i, c in enumerate(self.cases)] + \
                    [("%s/cases_exhaustive" % self.name, [], z3.Or(*self.cases))]
@@ -81,7 +86,7 @@ class Contract:
     def __init__(self, key, params, returns=None, requires=(), ensures=(), raises=None, loops=None,
                  modifies=(), inline=(), witness=(), ghost=(), trusted=False, pure=False, note="",
                  raise_ensures=None, decreases=None, body=None, unroll=None, assume_valid=True,
-                 replay=None, props=(), lemmas=(), locals=None):
+                 replay=None, props=(), lemmas=(), locals=None, hints=()):
         self.key = key                    # "path.py:qualname"
         self.params = dict(params)        # ordered name -> Ty
         self.returns = returns
@@ -103,6 +108,7 @@ class Contract:
         self.replay = replay
         self.props = list(props)
         self.lemmas = list(lemmas)
+        self.hints = list(hints)  # [(lemma name, [spec exprs over the parameters])]: ground lemma instances at entry
         self.locals = dict(locals or {})  # declared types of local variables (needed for empty literals)
 
 
